@@ -489,7 +489,15 @@ fn get_fields(
                         ParamValue::Boolean(b) => b.to_string(),
                         ParamValue::Integer(i) => i.to_string(),
                         ParamValue::Float(f) => f.to_string(),
-                        ParamValue::String(s) => prepared_query.add_param(String::from(s), true),
+                        ParamValue::String(s) => {
+                            let param = prepared_query.add_param(String::from(s), true);
+                            //the default of a Json field is a JSON value, not a string
+                            if field.field.field_type == FieldType::Json {
+                                format!("json({})", param)
+                            } else {
+                                param
+                            }
+                        }
                         ParamValue::Binary(s) => prepared_query.add_param(String::from(s), true),
                         ParamValue::Null => unreachable!(),
                     };
